@@ -5,14 +5,17 @@ package harness
 // error) is reported by the driver through the in-flight journal; a time-out is inconclusive.
 
 import (
+	"bytes"
 	"encoding/base64"
 	"encoding/json"
 	"fmt"
 	"os"
 	"path/filepath"
+	"runtime"
 	"sort"
 	"strings"
 	"sync"
+	"sync/atomic"
 	"testing"
 
 	"pgregory.net/rapid"
@@ -800,15 +803,44 @@ func FuzzC17(f *testing.F) {
 // TestC19_Concurrent: the entry points share one parser, applier, handler and VDR (entry registry). Valid and corrupted
 // inputs handed over from several goroutines at once are answered; the process survives (an unsynchronised map or a
 // shared buffer inside a component ends in "fatal error: concurrent map writes" or an index panic, which no recover() stops).
+// withOtherSignature replaces the signature segment of a request's signed data by other bytes of the same length.
+func withOtherSignature(req []byte, tag string) []byte {
+	const member = `"signedData":"`
+	i := bytes.Index(req, []byte(member))
+	if i < 0 {
+		return req
+	}
+	start := i + len(member)
+	end := bytes.IndexByte(req[start:], '"')
+	if end < 0 {
+		return req
+	}
+	jws := string(req[start : start+end])
+	dot := strings.LastIndexByte(jws, '.')
+	if dot < 0 || dot == len(jws)-1 {
+		return req
+	}
+	sig := []byte(jws[dot+1:])
+	const alphabet = "ABCDEFGHIJKLMNOPQRSTUVWXYZabcdefghijklmnopqrstuvwxyz0123456789-_"
+	for j := 0; j < len(tag) && j < len(sig)-1; j++ {
+		sig[j] = alphabet[int(tag[j])%len(alphabet)]
+	}
+	out := append([]byte{}, req[:start+dot+1]...)
+	out = append(out, sig...)
+	return append(out, req[start+end:]...)
+}
+
 func TestC19_Concurrent(t *testing.T) {
 	st := statsFor("C19")
 	entrySetup()
-	check(t, "C19", 20, func(t *rapid.T) {
+	check(t, "C19", 60, func(t *rapid.T) {
 		p := wideProtocol()
 		n := rapid.IntRange(2, 8).Draw(t, "goroutines")
-		rounds := rapid.IntRange(5, 30).Draw(t, "rounds")
+		rounds := rapid.IntRange(2, 8).Draw(t, "rounds")
 		var inputs [][]byte
-		for i := 0; i < n; i++ {
+		// more inputs than goroutines: every goroutine goes through all of them, starting at its own offset, so that whatever
+		// the code keeps per input (caches, pools) is first written while other goroutines write their own entries
+		for i, m := 0, rapid.IntRange(n, 16).Draw(t, "inputs"); i < m; i++ {
 			typ := rapid.SampledFrom([]string{"update", "recover", "deactivate", "create"}).Draw(t, "opType")
 			ctx := &opGenCtx{P: p, Doc: map[string]interface{}{}, Suffix: entrySuffix, Keys: entryKeys(), St: st, Classes: []string{"valid"}, Time: 5, NoIetf: true}
 			c := genOpCase(t, typ, ctx)
@@ -820,22 +852,40 @@ func TestC19_Concurrent(t *testing.T) {
 			inputs = append(inputs, raw)
 		}
 		journal("ParseRequest", inputs[0])
+		distinct := rapid.IntRange(0, 3).Draw(t, "everyCallDistinct") > 0
 		errs := make(chan string, n)
 		var wg sync.WaitGroup
-		for i := range inputs {
+		var released int32
+		for w := 0; w < n; w++ {
 			wg.Add(1)
-			go func(in []byte) {
+			go func(w int) {
 				defer wg.Done()
+				for atomic.LoadInt32(&released) == 0 {
+					runtime.Gosched()
+				}
 				for r := 0; r < rounds; r++ {
-					for _, entry := range []string{"ParseRequest", "Bytes"} {
-						if err := callNoPanic(func() { entryPoints()[entry](in) }); err != nil {
-							errs <- fmt.Sprintf("entry %s panicked: %v\n input %s", entry, err, clip(string(in), 600))
-							return
+					for k := range inputs {
+						in := inputs[(w+k)%len(inputs)]
+						if distinct {
+							// every call brings signed data the components have never seen (the signature bytes are not looked at
+							// before the applier verifies them): whatever is kept per request is written by every call
+							in = withOtherSignature(in, fmt.Sprintf("%d.%d.%d", w, r, k))
+						}
+						entries := []string{"ParserOnly"}
+						if (w+r+k)%4 == 0 {
+							entries = []string{"ParserOnly", "ParseRequest", "Bytes"} // the long routes for a quarter of the calls
+						}
+						for _, entry := range entries {
+							if err := callNoPanic(func() { entryPoints()[entry](in) }); err != nil {
+								errs <- fmt.Sprintf("entry %s panicked: %v\n input %s", entry, err, clip(string(in), 600))
+								return
+							}
 						}
 					}
 				}
-			}(inputs[i])
+			}(w)
 		}
+		atomic.StoreInt32(&released, 1)
 		awaitWorkers(t, &wg, "C19 concurrent entry points")
 		close(errs)
 		for e := range errs {
